@@ -142,7 +142,7 @@ impl Check for GrHelper {
                     if rng.coin() {
                         ops.push(jarr!["enable"]);
                     } else {
-                        ops.push(jarr!["admin", *rng.pick(&["shutdown", "disable", "reset"])]);
+                        ops.push(jarr!["admin", *rng.pick(&["shutdown", "disable", "reset", "delete"])]);
                     }
                 }
             }
@@ -163,7 +163,7 @@ impl Check for GrHelper {
 
     fn info(&self) -> CheckInfo {
         CheckInfo {
-            rule: "one GR/LLGR-configured neighbour (family sets, N-bit, restart 5/30/120 s, LLGR 10/60/600 s drawn per run) on a real session; history of announce/withdraw (some with NO_LLGR), drops by FIN / RST / silence->hold expiry / received Cease, hard-reset and non-Cease NOTIFICATIONs / operator shutdown, disable, hard reset / malformed UPDATE, reconnects with the same, fewer or no GR/LLGR families, attempts that fail at OPEN or die before/after Established, End-of-RIB per family, waits of 10-250% of each timer. Invariants at every quiescent point, read from PeerContext and the RIB: (I1) a retained path (stale, LLGR-stale, or from an earlier session) implies restart timer armed, LLGR timer armed for its family, or EOR awaited on the live session; (I2) after a drop no path of a family outside the negotiated GR/LLGR sets remains; (I3) what the live session announced is in the RIB; (I4) hard reset / admin shutdown / non-Cease error leave nothing behind; (I5) no NO_LLGR path is LLGR-stale; (I6) TCP failure with GR keeps and stales the routes; bounded liveness after the last fault. non-trivial = some path was retained across a session drop".into(),
+            rule: "one GR/LLGR-configured neighbour (family sets, N-bit, restart 5/30/120 s, LLGR 10/60/600 s drawn per run) on a real session; history of announce/withdraw (some with NO_LLGR), drops by FIN / RST / silence->hold expiry / received Cease, hard-reset and non-Cease NOTIFICATIONs / operator shutdown, disable, hard reset, delete (and configure again) / malformed UPDATE, reconnects with the same, fewer or no GR/LLGR families, attempts that fail at OPEN or die before/after Established, End-of-RIB per family, waits of 10-250% of each timer. Invariants at every quiescent point, read from PeerContext and the RIB: (I1) a retained path (stale, LLGR-stale, or from an earlier session) implies restart timer armed, LLGR timer armed for its family, or EOR awaited on the live session; (I2) after a drop no path of a family outside the negotiated GR/LLGR sets remains; (I3) what the live session announced is in the RIB; (I4) hard reset / admin shutdown / non-Cease error leave nothing behind; (I5) no NO_LLGR path is LLGR-stale; (I6) TCP failure with GR keeps and stales the routes; bounded liveness after the last fault. non-trivial = some path was retained across a session drop".into(),
             components_real: vec!["PeerSession::{run,session_loop}, apply_disconnect, gr_on_disconnect, families_to_drop_on_disconnect, gr_restart_timer_expired, llgr_timer_expired, spawn_llgr_timers, process_effects".into(), "gr::GrState".into(), "TableManager::{unregister_peer,drop_stale_families,mark_llgr_stale,drop_llgr_stale_families}, table::Table".into(), "GrpcService::{shutdown_peer,disable_peer,enable_peer,reset_peer}".into()],
             components_stubbed: vec!["TCP, clock, listener loop, the restarting peer (scripted)".into()],
             assumptions: vec!["timer 'armed' = oneshot sender present and its task alive (Sender::is_closed() == false)".into(), "1 s slack on bounded liveness".into()],
@@ -211,6 +211,7 @@ async fn run(case: Json, tol: Tolerate) -> Outcome {
     if cfg_llgr != 0 {
         ps.llgr = Some(fams_of(cfg_llgr).into_iter().map(|f| (f, llgr_time as u32)).collect());
     }
+    let ps_again = ps.clone();
     wcfg.peers.push(ps);
     let node = NodeCfg { role, addr, asn, rid: 0x0a00_0101, send_max: 1, addpath_rx: false, gr: None, llgr: None, prefix_limit: None, ext_msg: false };
     let w = World::new(&wcfg).await;
@@ -234,6 +235,8 @@ async fn run(case: Json, tol: Tolerate) -> Outcome {
         dropped_llgr: BTreeSet::new(),
     };
     let mut retained_seen = false;
+    let mut deleted = false;
+    let mut orphans: Vec<Arc<std::sync::Mutex<PeerContext>>> = Vec::new();
     let mut silent = false;
     let mut old_before_drop = 0usize;
 
@@ -411,6 +414,16 @@ async fn run(case: Json, tol: Tolerate) -> Outcome {
                         let _ = t.w.grpc.disable_peer(tonic::Request::new(api::DisablePeerRequest { address: addr.to_string(), ..Default::default() })).await;
                         m.admin_down = true;
                     }
+                    "delete" => {
+                        // the neighbour is removed from the configuration (and configured again at the next
+                        // `enable`); its timers live on in the context the timer tasks hold
+                        if let Some(p) = t.w.global.read().await.peers.get(&addr) {
+                            orphans.push(p.context.clone());
+                        }
+                        let _ = t.w.grpc.delete_peer(tonic::Request::new(api::DeletePeerRequest { address: addr.to_string(), ..Default::default() })).await;
+                        m.admin_down = true;
+                        deleted = true;
+                    }
                     _ => {
                         let _ = t.w.grpc.reset_peer(tonic::Request::new(api::ResetPeerRequest { address: addr.to_string(), soft: false, ..Default::default() })).await;
                     }
@@ -420,7 +433,12 @@ async fn run(case: Json, tol: Tolerate) -> Outcome {
             }
             "enable" => {
                 if m.admin_down {
-                    let _ = t.w.grpc.enable_peer(tonic::Request::new(api::EnablePeerRequest { address: addr.to_string(), ..Default::default() })).await;
+                    if deleted {
+                        let _ = t.w.global.write().await.add_peer(ps_again.params(), Some(t.w.active_tx.clone()));
+                        deleted = false;
+                    } else {
+                        let _ = t.w.grpc.enable_peer(tonic::Request::new(api::EnablePeerRequest { address: addr.to_string(), ..Default::default() })).await;
+                    }
                     m.admin_down = false;
                     t.settle().await;
                 }
@@ -456,17 +474,18 @@ async fn run(case: Json, tol: Tolerate) -> Outcome {
         // ---- invariants at this quiescent point --------------------------------------------------
         let (gr_armed, llgr_armed, restarting): (bool, BTreeSet<usize>, bool) = {
             let g = t.w.global.read().await;
-            match g.peers.get(&addr) {
-                Some(p) => {
-                    let ctx = p.context.lock().unwrap();
-                    (
-                        ctx.gr_restart_timer.as_ref().is_some_and(|tx| !tx.is_closed()),
-                        (0..2).filter(|i| ctx.llgr_family_timers.get(&FAMS[*i]).is_some_and(|tx| !tx.is_closed())).collect(),
-                        ctx.gr_state.is_peer_restarting(),
-                    )
-                }
-                None => (false, BTreeSet::new(), false),
+            let mut ctxs: Vec<Arc<std::sync::Mutex<PeerContext>>> = orphans.clone();
+            if let Some(p) = g.peers.get(&addr) {
+                ctxs.push(p.context.clone());
             }
+            let mut r = (false, BTreeSet::new(), false);
+            for c in ctxs {
+                let ctx = c.lock().unwrap();
+                r.0 |= ctx.gr_restart_timer.as_ref().is_some_and(|tx| !tx.is_closed());
+                r.1.extend((0..2).filter(|i| ctx.llgr_family_timers.get(&FAMS[*i]).is_some_and(|tx| !tx.is_closed())));
+                r.2 |= ctx.gr_state.is_peer_restarting();
+            }
+            r
         };
         let mut from_older_session: BTreeSet<(usize, String)> = BTreeSet::new();
         let mut rib: BTreeMap<(usize, String), (bool, bool, bool, bool)> = BTreeMap::new(); // (stale, llgr, old source, no_llgr)
